@@ -500,3 +500,48 @@ package kapacitor
 //@   props C10
 //@   requires g != nil && g.n != nil && bp != nil && !gfi(bp, mutated, bool)
 //@   ensures !gfi(bp, mutated, bool)
+
+// ---------------------------------------------------------------- window.go: count windows (C03)
+
+// Ring of the last `size` points: view(i) = buf[(start+i) mod period], oldest first.
+//@ spec wcView(w *windowByCount, i int) edge.BatchPointMessage = w.buf[qidx(w.start, i, w.period)]
+//@ spec wcOK(w *windowByCount) bool = w != nil && w.period > 0 && w.every > 0 && len(w.buf) == w.period
+//@     && 0 <= w.start && w.start < w.period && 0 <= w.stop && w.stop < w.period
+//@     && 0 <= w.count && w.size == min(w.count, w.period)
+//@     && w.stop == qidx(w.start, w.size, w.period)
+//@     && w.count < w.nextEmit
+
+// "A count window emitted after the k-th point contains exactly the last min(k, periodCount)
+// points, every everyCount points."
+//@ func (*windowByCount).Point
+//@   props C03
+//@   requires wcOK(w) && p != nil
+//@   modifies w.start, w.stop, w.size, w.count, w.nextEmit, elems(w.buf)
+//@   ensures wcOK(w) && w.count == old(w.count) + 1
+//@   ensures wcView(w, w.size - 1) == edge.BatchPointFromPoint(p)
+//@   ensures forall i int :: 0 <= i && i < w.size - 1 ==> wcView(w, i) == old(wcView(w, i + ite(w.size == w.period, 1, 0)))
+//@   ensures (msg != nil) <==> (old(w.count) + 1 == old(w.nextEmit))
+//@   ensures w.nextEmit == old(w.nextEmit) + ite(old(w.count) + 1 == old(w.nextEmit), w.every, 0)
+//@   ensures err == nil
+
+//@ func (*windowByCount).batch
+//@   trusted
+//@   requires w.size >= 1
+//@   modifies nothing
+//@   ensures result != nil
+
+//@ func (*windowByCount).points
+//@   props C03
+//@   requires w != nil && w.period > 0 && len(w.buf) == w.period && 0 <= w.start && w.start < w.period && 0 <= w.stop && w.stop < w.period
+//@       && 0 <= w.size && w.size <= w.period && w.stop == qidx(w.start, w.size, w.period)
+//@   modifies nothing
+//@   ensures len(result) == w.size
+//@   ensures forall i int :: 0 <= i && i < w.size ==> result[i] == wcView(w, i)
+//@   loop 1
+//@     modifies elems(points)
+//@     invariant w.start <= i && i <= l && l == len(w.buf) && j == i - w.start && len(points) == w.size && samearray(points, before(points))
+//@     invariant forall k int :: 0 <= k && k < j ==> points[k] == wcView(w, k)
+//@   loop 2
+//@     modifies elems(points)
+//@     invariant 0 <= i && i <= w.stop && l == len(w.buf) && j == l - w.start + i && len(points) == w.size && samearray(points, before(points))
+//@     invariant forall k int :: 0 <= k && k < j ==> points[k] == wcView(w, k)
